@@ -587,7 +587,10 @@ class DictRef:
             return descr_obj(interp, ODescrS.dd(v), self.allowed_descr or DESCR_CLASSES)
         if isinstance(vk, tuple) and vk[0] == "ref":
             sub = DICT_TYPES[vk[1]]
-            return DictRef(sub, v, allowed_descr=self.allowed_descr)
+            # change dictionaries reached through the atom (bond) change table hold atom (bond) descriptors: W10 / W11.
+            # A descriptor of another family found there ends the path with `Unreachable`, whose infeasibility is an obligation.
+            fam = ATOM_DESCR if self.t is D_ACHG else (BOND_DESCR if self.t is D_BCHG else None)
+            return DictRef(sub, v, allowed_descr=self.allowed_descr or fam)
         if isinstance(vk, tuple) and vk[0] == "setref":
             return SetRef(SET_TYPES[vk[1]], v)
         raise OutOfSubset(vk)
